@@ -25,6 +25,7 @@ type httpListener struct {
 	closing  bool
 	closed   bool
 	late     map[string]bool // connections (remote addresses) that already sent their one request after Shutdown began
+	done     chan struct{}   // closed when the listener is closed: Serve returns
 }
 
 // ErrRefused is what a client gets when nothing listens on the address (any more).
@@ -47,15 +48,15 @@ func HTTPListenAndServe(srv *http.Server) error {
 	if s.listener(srv.Addr) != nil {
 		return fmt.Errorf("listen tcp %s: bind: address already in use", srv.Addr)
 	}
-	l := &httpListener{srv: srv}
+	l := &httpListener{srv: srv, done: make(chan struct{})}
 	l.cond = NewCond(&l.mu)
 	s.listeners = append(s.listeners, l)
 	Probe("listen")
-	l.mu.Lock()
-	for !l.closed {
-		l.cond.Wait()
-	}
-	l.mu.Unlock()
+	// (a real wait, like a sleep: a task that accepts connections is not "blocked on the program's synchronisation", the
+	// simulation is quiescent while it waits)
+	t := Release()
+	<-l.done
+	Acquire(t)
 	return http.ErrServerClosed
 }
 
@@ -81,7 +82,7 @@ func HTTPShutdown(srv *http.Server, ctx context.Context) error {
 			// like the real one: the listener is closed, connections in flight are left alone
 			l.mu.Lock()
 			l.closed = true
-			l.cond.Broadcast()
+			close(l.done)
 			l.mu.Unlock()
 			return ctx.Err()
 		}
@@ -92,7 +93,7 @@ func HTTPShutdown(srv *http.Server, ctx context.Context) error {
 		l.mu.Lock()
 	}
 	l.closed = true
-	l.cond.Broadcast()
+	close(l.done)
 	l.mu.Unlock()
 	return nil
 }
